@@ -45,6 +45,7 @@ type lifePlan struct {
 	KeepHijacked    bool       `json:"keep_hijacked_conns"`
 	CloseOnShutdown bool       `json:"close_on_shutdown"`
 	ShutdownMs      int        `json:"shutdown_ms"`
+	SecondRound     bool       `json:"serve_and_shutdown_again,omitempty"` // C15: the same Server is served and shut down a second time
 	Conns           []lifeConn `json:"conns"`
 }
 
@@ -87,6 +88,7 @@ type lifeRun struct {
 	cur, peak int32
 	hijackCur int32
 	shutdownStart, shutdownRet time.Duration
+	round2Started, round2Done int32
 	shutdownErr error
 	doneOpenDuringShutdown int
 	workersPeak int
@@ -126,6 +128,7 @@ func genLifePlan(e *Env) *lifePlan {
 		if p.IdleTimeoutMs == 1500 {
 			p.IdleTimeoutMs = 600000
 		}
+		p.SecondRound = e.Chance(35)
 	}
 	n := e.Range(2, 7)
 	ips := []string{"10.1.0.1", "10.1.0.2", "10.1.0.3"}
@@ -230,6 +233,18 @@ func (r *lifeRun) handler(ctx *fasthttp.RequestCtx, inv *Inv) {
 	}
 	if rec != nil {
 		atomic.AddInt32(&rec.invoked, 1)
+	}
+	if strings.HasPrefix(inv.URI, "/round2") {
+		// second Serve/Shutdown round: wait for Done, which the second Shutdown must close
+		atomic.AddInt32(&r.round2Started, 1)
+		select {
+		case <-ctx.Done():
+			atomic.AddInt32(&r.round2Done, 1)
+		case <-time.After(45 * time.Second):
+		}
+		ctx.SetBodyString("round2")
+		atomic.AddInt32(&r.cur, -1)
+		return
 	}
 	ms, _ := strconv.Atoi(string(ctx.QueryArgs().Peek("h")))
 	if ms > 0 {
@@ -915,5 +930,76 @@ func (r *lifeRun) judgeShutdownFinal() {
 	}
 	if r.shutdownRet > bound && (p.IdleTimeoutMs == 0 || p.IdleTimeoutMs > 60000) && p.ReadTimeoutMs == 0 {
 		e.Violation("idle-waited", "Shutdown started at %v and returned at %v; the last handler ended (or new-connection grace expired) at %v: idle connections were waited for instead of closed", r.shutdownStart, r.shutdownRet, latest)
+		return
 	}
+	if p.SecondRound && !e.Failed() && r.shutdownErr == nil {
+		r.secondRound()
+	}
+}
+
+// secondRound serves the same Server again on a new listener and shuts it
+// down while a request is in flight: the guarantees hold for every
+// Serve/Shutdown round, not only the first.
+func (r *lifeRun) secondRound() {
+	e := r.e
+	addr := tcpAddr("10.0.0.1", 81)
+	ln := e.Net.Listen(addr)
+	served := make(chan struct{})
+	Go("serve", func() {
+		r.s.Serve(ln)
+		close(served)
+	})
+	time.Sleep(2 * time.Second)
+	cl := tcpAddr("10.1.0.9", 45000)
+	r.recs[cl.String()] = &lifeConnRec{idx: -1, addr: cl.String()}
+	conn, err := e.Net.Dial(cl, addr.String())
+	if err != nil {
+		e.Violation("round2/dial", "the re-served Server does not accept connections: %v", err)
+		return
+	}
+	sc := &SeqClient{C: conn, br: bufio.NewReaderSize(conn, 1<<16)}
+	sc.Send([]byte("GET /round2 HTTP/1.1\r\nHost: x\r\n\r\n"), nil)
+	for i := 0; i < 100 && atomic.LoadInt32(&r.round2Started) == 0; i++ {
+		time.Sleep(100 * time.Millisecond)
+	}
+	e.Ob(4)
+	if atomic.LoadInt32(&r.round2Started) == 0 {
+		e.Violation("round2/not-served", "a request sent to the re-served Server did not reach its handler within 10 simulated seconds")
+		return
+	}
+	e.Probe("second-round")
+	start := Now()
+	ret := make(chan error, 1)
+	Go("shutdown", func() { ret <- r.s.Shutdown() })
+	var serr error
+	select {
+	case serr = <-ret:
+	case <-time.After(3 * time.Minute):
+		e.Violation("round2/shutdown-hangs", "second Shutdown of the same Server (a request was in flight, waiting for ctx.Done()) had not returned after 3 simulated minutes; Done observed closed: %v", atomic.LoadInt32(&r.round2Done) > 0)
+		return
+	}
+	if serr != nil {
+		e.Inconclusive("second Shutdown returned %v", serr)
+		return
+	}
+	if atomic.LoadInt32(&r.round2Done) == 0 {
+		e.Violation("round2/done-open", "second round: ctx.Done() was not closed while Shutdown was in progress (Shutdown took %v)", Now()-start)
+		return
+	}
+	if !ln.IsClosed() {
+		e.Violation("round2/listener-open", "second Shutdown returned nil and the listener is still open")
+		return
+	}
+	resp, _, err := sc.ReadResp("GET", time.Minute)
+	if err != nil || resp == nil || string(resp.Body) != "round2" {
+		e.Violation("round2/response-lost", "second round: the in-flight request's response was not delivered (err=%v)", err)
+		return
+	}
+	time.Sleep(time.Millisecond)
+	select {
+	case <-served:
+	default:
+		e.Violation("round2/serve-not-returned", "second Shutdown returned nil and Serve had not returned 1 ms later")
+	}
+	conn.Close()
 }
